@@ -2,9 +2,9 @@ package main
 
 import (
 	"fmt"
+	"go/types"
 	"math/bits"
 	"os"
-	"go/types"
 	"math"
 	"strings"
 
@@ -227,6 +227,35 @@ func init() {
 	})
 	regRepo("vhUnwind", func(ex *Exec, st *State, fr *Frame, args []Value) (Value, ctlT) {
 		st.unwind = ex.intArg(st, args[0], "unwind")
+		return nil, ctlRet
+	})
+	regRepo("vhGuarded", func(ex *Exec, st *State, fr *Frame, args []Value) (Value, ctlT) {
+		obj := args[0].(IfaceVal)
+		field := strArg(args[1])
+		pt, ok := obj.T.Underlying().(*types.Pointer)
+		if !ok {
+			unsup("vhGuarded: object must be a pointer to a struct")
+		}
+		idx := fieldIndex(pt.Elem(), field)
+		key := obj.V.(PtrVal).Field(idx).Key()
+		mu := "atomic"
+		if m, ok := args[2].(IfaceVal); ok && m.T != nil {
+			mu = m.V.(PtrVal).Key()
+		}
+		ng := make(map[string]guardDecl, len(st.guards)+1)
+		for k, v := range st.guards {
+			ng[k] = v
+		}
+		tn := pt.Elem().String()
+		if i := strings.LastIndex(tn, "."); i >= 0 {
+			tn = tn[i+1:]
+		}
+		ng[key] = guardDecl{mu: mu, name: tn + "." + field}
+		st.guards = ng
+		return nil, ctlRet
+	})
+	regRepo("vhGuardCheck", func(ex *Exec, st *State, fr *Frame, args []Value) (Value, ctlT) {
+		st.guardOn = args[0].(*Term).IsTrue()
 		return nil, ctlRet
 	})
 	regRepo("vhConcreteClock", func(ex *Exec, st *State, fr *Frame, args []Value) (Value, ctlT) {
